@@ -183,10 +183,13 @@ def gen_reply_case(rnd, prev_key16):
     status_line = b"HTTP/1.1 " + status + (b" " + reason if reason else b"")
     fold_ok = True
     reply = render_reply(rnd, status_line, headers, fold_ok)
+    big_cut = None
     if kind == "big_terminated":
-        pad = rnd.choice([16384, 16385, 17000, 40000]) - len(reply)
+        # the limit counts the terminator: every total length around 16384, in one read, cut anywhere, or cut inside the terminator
+        pad = rnd.choice([16380, 16383, 16384, 16384, 16385, 16385, 16386, 16387, 16388, 16389, 16392, 17000, 40000]) - len(reply) - len(b"X-Big: \r\n")
         reply = reply[:-2] + b"X-Big: " + b"z" * max(pad, 0) + b"\r\n\r\n"
         expect = "protocol_error" if len(reply) > 16384 else "ready"
+        big_cut = rnd.choice(["one", "one", "tail", "random"])
     elif kind == "big_unterminated":
         reply = reply[:-4] + b"\r\nX-Big: " + b"z" * rnd.choice([16400, 30000])
         expect = "protocol_error"
@@ -194,7 +197,13 @@ def gen_reply_case(rnd, prev_key16):
         reply = rnd.choice([b"\r\n\r\n", b"HTTP/1.1\r\n\r\n", b"hello world\r\n\r\n", b"HTTP/1.1 abc Switching\r\n\r\n", b"\x00\xff\xfe\r\n\r\n"])
         expect = "rejected"
     stream = reply + ref6455.encode_frame(1, b"first")
-    chunks = scen.chunkings(rnd, stream, rnd.choice(["one", "random", "small"]) if len(stream) < 3000 else "random")
+    if big_cut == "one":
+        chunks = [stream]
+    elif big_cut == "tail":
+        k = len(reply) - rnd.choice([1, 2, 3, 4, 5])
+        chunks = [stream[:k], stream[k:]]
+    else:
+        chunks = scen.chunkings(rnd, stream, rnd.choice(["one", "random", "small"]) if len(stream) < 3000 else "random")
     sc = dict(cfg=simnet.default_cfg(), steps=scen.steps_from_chunks(chunks), key16=key16, keys=[b"\x00\x00\x00\x00"] * 3,
               ztape=[b"first"] * 2)
     sc["_kind"] = kind
@@ -240,6 +249,48 @@ def known(sc, complaint):
     if sc.get("_accept_case_only") and complaint.startswith("Ready was yielded"):
         return "KF-D"
     return None
+
+
+def reconnect_family(rep, rnd, n):
+    """two attempts on one WebSocket object: the first reaches the accept comparison; the second (fresh key) gets either the
+    digest of its own key (must be Ready) or the digest of the first attempt's key (must be Rejected)"""
+    import lomond.websocket as W
+    cases = 0
+    for i in range(n):
+        k1 = bytes(bytearray(rnd.getrandbits(8) for _ in range(16)))
+        k2 = bytes(bytearray(rnd.getrandbits(8) for _ in range(16)))
+        first_kind = rnd.choice(["ready", "ready", "wrong-accept", "upgrade-missing-accept-present"])
+        if first_kind == "ready":
+            r1 = ref6455.handshake_response(simnet.accept_for(k1))
+        elif first_kind == "wrong-accept":
+            r1 = ref6455.handshake_response(simnet.accept_for(k2[::-1]))
+        else:
+            r1 = ref6455.handshake_response(simnet.accept_for(k1)).replace(b"websocket", b"websockets")
+        stale = (i % 2 == 1)
+        r2 = ref6455.handshake_response(simnet.accept_for(k1 if stale else k2))
+        sc1 = dict(cfg=simnet.default_cfg(), steps=[("data", 0, r1), ("eof", 0)], key16=k1, keys=[b"\x00" * 4] * 3)
+        sc2 = dict(cfg=simnet.default_cfg(), steps=[("data", 0, r2 + ref6455.encode_frame(1, b"first")), ("eof", 0)], key16=k2, keys=[b"\x00" * 4] * 3)
+        ws = W.WebSocket("ws://example.test/chat")
+        a = dict(sc1)
+        a["_ws_object"] = ws
+        simnet.run_impl(a)
+        b = dict(sc2)
+        b["_ws_object"] = ws
+        r = simnet.run_impl(b)
+        codes = fam.event_codes(simnet.canon_trace(r.trace))
+        cases += 1
+        rep.add_case(("reconnect", i, first_kind, stale))
+        rep.count("reconnect.first", first_kind)
+        bad = None
+        if r.escaped:
+            bad = "exception %s escaped the iterator" % r.escaped
+        elif stale and (4 in codes or 3 not in codes):
+            bad = "the second attempt on the same WebSocket accepted the digest of the FIRST attempt's key (events %s)" % codes
+        elif not stale and 4 not in codes:
+            bad = "the second attempt on the same WebSocket rejected the correct digest of its own fresh key (events %s)" % codes
+        if bad:
+            rep.violation(bad, scenario=dict(kind="reconnect", previous=fam.jsonable_sc(sc1), next=fam.jsonable_sc(sc2)), family="C10:reconnect")
+    rep.families.append(dict(name="C10:reconnect", cases=cases, rule="two attempts on one WebSocket object (first: Ready / wrong accept / bad Upgrade), the second with a fresh key and a reply carrying the digest of its own key (Ready expected) or of the previous attempt's key (Rejected expected)"))
 
 
 def run(rep, info, model, tier, seed):
@@ -294,6 +345,8 @@ def run(rep, info, model, tier, seed):
     ks = [[l for l in r.split(b"\r\n") if l.lower().startswith(b"sec-websocket-key")][0].split(b":")[1].strip() for r in seen]
     if len(set(ks)) != 3 or any(base64.b64decode(k) == b"" for k in ks):
         rep.violation("successive connection attempts on one WebSocket reuse the handshake key (%r)" % ks, scenario=dict(kind="fresh-key"), family="C10:fresh-key")
+    # ---- the accept value is checked against the key of THIS attempt, also on a WebSocket object that was connected before
+    reconnect_family(rep, rnd, 24 if tier == "quick" else 300)
     # ---- replies
     nrep = 2000 if tier == "quick" else 30000
     scs = []
@@ -311,6 +364,18 @@ def run(rep, info, model, tier, seed):
 
 def replay(body):
     sc = fam.unjson_sc(body["scenario"])
+    if sc.get("kind") == "reconnect":
+        import lomond.websocket as W
+        ws = W.WebSocket("ws://example.test/chat")
+        a = dict(sc["previous"], _ws_object=ws)
+        a["steps"] = [tuple(x) for x in a["steps"]]
+        simnet.run_impl(a)
+        b = dict(sc["next"], _ws_object=ws)
+        b["steps"] = [tuple(x) for x in b["steps"]]
+        r = simnet.run_impl(b)
+        print("events of the second attempt:", fam.event_codes(simnet.canon_trace(r.trace)))
+        print("REPLAY:", body.get("what"))
+        return 0
     r = simnet.run_impl(sc)
     tr = simnet.canon_trace(r.trace)
     print("events:", fam.event_codes(tr))
